@@ -151,3 +151,22 @@ package structs
 //@   requires ma != nil
 //@   modifies ma.StrEnc
 //@ end
+
+// C02 (the `where` stage compares numbers by value, like the search clause): a
+// numeric operand is handed on either as the float it evaluated to or as an
+// int64 — and as an int64 only when that integer has EXACTLY the float's value
+// (whole values of magnitude 2^63 and beyond, or infinities, have no int64).
+//@ ghostdecl evalFloat float64
+//@ func (*ValueExpr).EvaluateToNumber
+//@   props C02
+//@   requires valueExpr != nil
+//@   site callret valueExpr.EvaluateToFloat #1:
+//@     ghostset ghost(0, "evalFloat") = result0
+//@   ensures [the-number-handed-on-has-the-value-that-was-evaluated] implies(result1 == nil, (isdyn(result0, int64) && float64(result0.(int64)) == ghost(0, "evalFloat")) || (isdyn(result0, float64) && (result0.(float64) == ghost(0, "evalFloat") || ghost(0, "evalFloat") != ghost(0, "evalFloat"))))
+//@ end
+
+// copies an aggregation descriptor (frame only, ASSUMED: allocates the copy, writes nothing else)
+//@ func (Aggregation).ShallowClone
+//@   assumed
+//@   pure
+//@ end
